@@ -32,7 +32,7 @@ from cryptoparser.common.base import (
     VariantParsable,
     VariantParsableExact,
 )
-from cryptoparser.common.exception import InvalidType
+from cryptoparser.common.exception import InvalidType, NotEnoughData
 from cryptoparser.common.field import (
     FieldParsableBase,
     FieldValueBase,
@@ -416,7 +416,7 @@ class FieldHashTypeParams(CryptoDataParamsEnumString):
     pass
 
 
-class StringEnumHashParsableBase(StringEnumParsable):
+class StringEnumHashParsableBase(StringEnumCaseInsensitiveParsable):
     @classmethod
     def from_hash_algorithm(cls, hash_algorithm):
         return cls[hash_algorithm.name]
@@ -484,9 +484,11 @@ class ContentSecurityPolicySourceNonce(ParsableBase, Serializable):
         parser = ParserText(parsable)
 
         try:
-            parser.parse_string('prefix', cls._PREFIX)
-        except InvalidValue as e:
+            parser.parse_string_by_length('prefix', len(cls._PREFIX), len(cls._PREFIX))
+        except NotEnoughData as e:
             six.raise_from(InvalidType(), e)
+        if parser['prefix'].lower() != cls._PREFIX:
+            raise InvalidType()
 
         del parser['prefix']
 
